@@ -116,17 +116,25 @@ class ParallelMovPattern(RewritePattern):
             riscv.RISCVRegisterType, SSAValue[riscv.RISCVRegisterType]
         ] = {}
         leaves = set(dst_types)
+        # Writes to the zero register are discarded, so it is never a node of the graph.
+        leaves.discard(riscv.Registers.ZERO)
         unprocessed_children = Counter[SSAValue]()
 
         for idx, src, dst in zip(range(num_operands), srcs, dsts, strict=True):
-            # src.type points to something so it can't be a leaf
-            leaves.discard(src.type)
-
             if src.type == dst.type:
                 # Trivial case of moving register to itself.
                 # We can ignore all instances of this
+                leaves.discard(src.type)
                 results[idx] = src
+            elif dst.type == riscv.Registers.ZERO:
+                # Moving into the zero register has no effect and zero may be the
+                # destination of several moves: emit the move upfront, where all the
+                # inputs are still intact, and keep it out of the graph.
+                mvop = _insert_mv_op(rewriter, src, dst.type, src_type_by_src[src])
+                results[idx] = mvop.results[0]
             else:
+                # src.type points to something so it can't be a leaf
+                leaves.discard(src.type)
                 src_by_dst_type[dst.type] = src
                 unprocessed_children[src] += 1
 
